@@ -42,6 +42,7 @@ pub enum StageKind {
     Text,
     Entropy,
     Sweep,
+    WriteErr,
 }
 
 #[derive(Clone, Copy, Debug)]
@@ -60,7 +61,12 @@ pub fn stages(property: &str, tier: &str, scale: f64) -> Vec<Stage> {
     let t = if tier == "thorough" { 100.0 } else { 1.0 };
     let n = |base: u64| ((base as f64) * t * scale).max(1.0) as u64;
     match property {
-        "C16" => vec![Stage { name: "pipeline control+benign", arm_id: 1, kind: StageKind::Pipeline(C16_CFG), runs: n(1_500_000) }],
+        "C16" => vec![
+            Stage { name: "pipeline control+benign", arm_id: 1, kind: StageKind::Pipeline(C16_CFG), runs: n(1_500_000) },
+            // encoding through a writer that fails at byte k: the error must surface and the bytes
+            // that reached the medium must be a prefix of the reference encoding
+            Stage { name: "pipeline write-error", arm_id: 8, kind: StageKind::WriteErr, runs: n(200_000) },
+        ],
         "C17" => vec![
             Stage { name: "pipeline destructive", arm_id: 2, kind: StageKind::Pipeline(C17_CFG), runs: n(1_500_000) },
             Stage { name: "text", arm_id: 3, kind: StageKind::Text, runs: n(600_000) },
@@ -78,7 +84,7 @@ pub fn stages(property: &str, tier: &str, scale: f64) -> Vec<Stage> {
 /// Which violation classes count for which property's batch.
 pub fn relevant(property: &str, class: &str) -> bool {
     match property {
-        "C16" => matches!(class, "ENC!=REF" | "LEN" | "ROUNDTRIP" | "MASKED-FAULT" | "ENC-PANIC" | "ENC-STEPS" | "PANIC" | "STEPS" | "ENC-FAIL" | "PRIM!=" | "NONCANON" | "LOST-WRITE"),
+        "C16" => matches!(class, "ENC!=REF" | "LEN" | "ROUNDTRIP" | "MASKED-FAULT" | "ENC-PANIC" | "ENC-STEPS" | "PANIC" | "STEPS" | "ENC-FAIL" | "PRIM!=" | "NONCANON" | "LOST-WRITE" | "PREFIX"),
         "C17" => matches!(class, "PANIC" | "STEPS" | "NONCANON" | "PREFIX" | "TORN-OK" | "LIE" | "NONMINIMAL"),
         "C04" => matches!(class, "NONCANON" | "ORDER" | "GEN-PANIC"),
         _ => false,
@@ -212,6 +218,7 @@ pub fn plan_for(stage: &Stage, seed: u64, restrict: &Restrict) -> Plan {
 fn plan_for_inner(stage: &Stage, seed: u64, restrict: &Restrict) -> Plan {
     match stage.kind {
         StageKind::Pipeline(cfgs) => gen::gen_pipeline(seed, cfgs, restrict),
+        StageKind::WriteErr => gen::gen_write_err(seed, restrict),
         StageKind::Text => gen::gen_text(seed, restrict),
         StageKind::Entropy => gen::gen_entropy(seed, restrict),
         StageKind::Sweep => unreachable!(),
@@ -222,7 +229,7 @@ fn restrict_applies(stage: &Stage, cfg_codec: Option<&str>) -> bool {
     // a --codec restriction names either a pipeline arm or a text/entropy codec
     match (stage.kind, cfg_codec) {
         (_, None) => true,
-        (StageKind::Pipeline(_) | StageKind::Sweep, Some(c)) => crate::arms::arm_by_name(c).is_some(),
+        (StageKind::Pipeline(_) | StageKind::Sweep | StageKind::WriteErr, Some(c)) => crate::arms::arm_by_name(c).is_some(),
         (StageKind::Text, Some(c)) => matches!(c, "from_str" | "bits_from_str" | "from_str_radix" | "from_base_be" | "from_base_le"),
         (StageKind::Entropy, Some(c)) => crate::entropy::CODECS.contains(&c),
     }
@@ -534,7 +541,7 @@ fn evidence(
     wall: f64,
 ) -> serde_json::Value {
     let all_faults: &[&str] = match cfg.property.as_str() {
-        "C16" => &["W-SHORT", "W-EINTR", "R-SHORT", "R-EINTR", "D-PREFILL", "D-EXACT", "S-FORM", "L-NONE", "L-BIG"],
+        "C16" => &["W-SHORT", "W-EINTR", "R-SHORT", "R-EINTR", "D-PREFILL", "D-EXACT", "S-FORM", "L-NONE", "L-BIG", "W-ERR", "S-ERR"],
         "C17" => &[
             "W-SHORT", "W-EINTR", "R-SHORT", "R-EINTR", "D-PREFILL", "S-FORM", "L-NONE", "L-BIG", "W-ERR", "M-TRUNC", "M-FLIP", "M-SUB", "M-ZERO",
             "M-DUP", "M-TAIL", "M-FIELD", "M-PAD0", "R-ERR", "R-EOF", "A-BUDGET", "L-SMALL", "S-FLAG", "S-ALIEN", "S-ERR", "P-SKEW", "N-NEG", "T-TRUNC", "T-SUB",
